@@ -44,6 +44,9 @@ func (a *mockAcceptor) Close() error {
 	} else {
 		a.f.c.Emit("acc:reclose:%d", a.n)
 	}
+	if a.f.closeErr { // the socket is closed all the same; the error is what a transport may report on top
+		return errors.New("mock acceptor: close reported an error")
+	}
 	return nil
 }
 
@@ -54,6 +57,7 @@ type mockFactory struct {
 	nconn   int
 	trs     []*mock.Transport
 	syncRet map[int]bool
+	closeErr bool       // Acceptor.Close reports an error
 	refuse  map[int]int // url -> number of Listen calls of the factory that still fail (address in use …)
 }
 
@@ -144,6 +148,7 @@ type c13Scenario struct {
 	threads       [][]c13Op
 	handshake     bool
 	panicInactive bool
+	closeErr      bool
 }
 
 func (o c13Op) String() string {
@@ -154,7 +159,7 @@ func (o c13Op) String() string {
 }
 
 func genC13(rng *rand.Rand) *c13Scenario {
-	sc := &c13Scenario{handshake: rng.Intn(4) == 0, panicInactive: rng.Intn(5) == 0}
+	sc := &c13Scenario{handshake: rng.Intn(4) == 0, panicInactive: rng.Intn(5) == 0, closeErr: rng.Intn(5) == 0}
 	nl := 1 + rng.Intn(2)
 	var t1 []c13Op
 	for k := 0; k < nl; k++ {
@@ -211,7 +216,7 @@ func runC13Scenario(sc *c13Scenario, strat rt.Strategy) *rt.Controller {
 	c.MaxStep = 4000
 	netty.NvRT = c
 	defer func() { netty.NvRT = nil }()
-	f := &mockFactory{c: c, accs: map[int]*mockAcceptor{}, syncRet: map[int]bool{}, refuse: map[int]int{}}
+	f := &mockFactory{c: c, accs: map[int]*mockAcceptor{}, syncRet: map[int]bool{}, refuse: map[int]int{}, closeErr: sc.closeErr}
 	parent, parentCancel := context.WithCancel(context.Background())
 	defer parentCancel()
 	bs := netty.NewBootstrap(
